@@ -9,6 +9,7 @@ DEVS = {
     "Dev_AddEmptyNameReturns": "FALSE",      # D9: repaired by e8e067a
     "Dev_QuitRefusedWhenBusy": "FALSE",      # D6: repaired by 87748aa
     "Dev_SocketEventStartsAll": "FALSE",     # D13: repaired (arbiter.manage_watchers)
+    "Dev_OpsAfterStop": "FALSE",             # D19: repaired (util.synchronized refuses once the arbiter is stopping)
 }
 
 
